@@ -18,5 +18,11 @@ CLAIMED = {
         design_ref="§4 C23, §3.2",
         note="requests are atomic in the model (overlapping async requests are not interleaved); staleness is permitted for dict-backed sources; namespace-aware sources are harness subclasses following the documented pattern",
     ),
+    "C12": dict(
+        technique="TLA+ transcription of the documented value/operator rules (Values.tla) and of the and/or/not parser + printer (Expr.tla) checked with TLC; every cell/tree replayed into real if/unless/elsif/case/ternary renders; operator consistency judged by Relations.tla",
+        text="TLC checks ShowParseInverse, RightAssociativeEqualPrecedence, OnlyFalseAndNilAreFalsy, NeIsNotEq, EqSymmetric on all 8 operators x 29x29 operand pairs, truthiness of every value in 5 carriers, and all and/or/not trees of depth<=2 (thorough 3) x valuations; each case is rendered sync+async through the real engine (literal and variable operand forms, float and Decimal) and must select the branch the specification computes; Relations.tla!OrderingConsistent relates the observed answers of <,>,<=,>=,==,!= for every pair",
+        design_ref="§4 C12, §3.5",
+        note="cells the documentation does not fix are marked Unspec and only judged by the consistency relation; pool of 29 values; decimals one digit",
+    ),
 }
 NOT_APPLICABLE = {}
